@@ -187,8 +187,26 @@ def sym_add_field(vc):
 
 PKG_SPEC = '''
 def any_match(field_res, name):
-    return any(f.match(name) for f in field_res)
+    return any(f.fullmatch(name) for f in field_res)
 '''
+
+
+def compiled_as_given(it, field_res, regex, pair=False):
+    """the property speaks about the USER's patterns: a field is hit iff a pattern (escaped when regex=False) matches its whole
+    name.  The code compiles the patterns first; this obligation ties the compiled pattern text to the user's pattern, so
+    that `fullmatch` on the compiled object is the full match of the user's pattern (an added anchor, prefix or suffix would
+    show here)."""
+    import z3
+    from pyvc import lib
+    if not isinstance(field_res, lib.CompSeq) or len(field_res.vars) != 1 or field_res.conds:
+        return False
+    el = field_res.elem
+    rx = el[0] if pair and isinstance(el, tuple) else el
+    if not isinstance(rx, lib.RegexV):
+        return False
+    v = field_res.vars[0]
+    want = v if regex else lib.RE_ESCAPE(v)
+    return z3.simplify(lib.term(rx.pattern, lib.StrS)).eq(z3.simplify(want))
 
 
 def sym_delete_fields_pkg(vc):
@@ -214,10 +232,11 @@ def sym_delete_fields_pkg(vc):
                 return it.truth(it.call(sp.attrs['any_match'], [env.lookup('field_res'), st['sf'].children['name']]))
 
             def cond_of(it, env, f):
-                return lib.RE_MATCH(lib.term(f.pattern, lib.StrS), st['sf'].children['name'].t)
+                return lib.RE_FULLMATCH(lib.term(f.pattern, lib.StrS), st['sf'].children['name'].t)
 
             def res_start(it, env, rd):
                 st['rd'] = rd
+                check(it, 'patterns-compiled-as-given[regex=%s]' % regex, compiled_as_given(it, env.lookup('field_res'), regex))
                 return rd
 
             def res_end(it, env, rd, events):
@@ -265,7 +284,7 @@ def sym_rename_fields_pkg(vc):
     from pyvc import lib
     from contracts.common import mk_package2, search_loop, tree_writes_under
     fk = vc.under_contract(P + 'rename_fields.py', ['rename_fields', 'func'])
-    spec = SpecModule('def any_match(field_res, name):\n    return any(src.match(name) for src, tgt in field_res)\n')
+    spec = SpecModule('def any_match(field_res, name):\n    return any(src.fullmatch(name) for src, tgt in field_res)\n')
     for regex in (True, False):
         def thunk(it, regex=regex):
             maker = real_function(it, 'dataflows.processors.rename_fields', 'rename_fields')
@@ -280,9 +299,12 @@ def sym_rename_fields_pkg(vc):
                 return it.truth(it.call(sp.attrs['any_match'], [env.lookup('field_res'), st['old']]))
 
             def cond_of(it, env, pair):
-                return lib.RE_MATCH(term(pair[0].pattern, StrS), st['old'].t)
+                return lib.RE_FULLMATCH(term(pair[0].pattern, StrS), st['old'].t)
 
             def f_start(it, env, sf):
+                if 'compiled' not in st:
+                    st['compiled'] = True
+                    check(it, 'patterns-compiled-as-given[regex=%s]' % regex, compiled_as_given(it, env.lookup('field_res'), regex, pair=True))
                 st['sf'] = sf
                 st['old'] = sf.children['name']
                 st['hit'] = None
@@ -299,7 +321,7 @@ def sym_rename_fields_pkg(vc):
                     check(it, 'unmatched-field-untouched[regex=%s]' % regex, z3.And(z3.Not(a), _b(not ws and not regs)))
                 else:
                     p, tgt = st['hit']
-                    new = lib.RE_SUB(term(p.pattern, StrS), term(tgt, StrS), st['old'].t)
+                    new = lib.RE_EXPAND(term(p.pattern, StrS), term(tgt, StrS), st['old'].t)      # target expanded on the full match
                     ok_w = len(ws) == 1 and ws[0].key == 'name' and ws[0].node is sf
                     check(it, 'matched-field-renamed-by-a-matching-pattern[regex=%s]' % regex,
                           z3.And(a, _b(ok_w), term(ws[0].value, StrS) == new) if ok_w else False)
@@ -354,13 +376,19 @@ def sym_computed_pkg(vc):
                     d = dict(v[1:]) if isinstance(v, tuple) and v and v[0] == 'dict' else None
                     check(it, 'appended-descriptor-has-target-name[%s]' % tkind, d is not None and d.get('name') is tname and
                           (d.get('type') == 'string' if tkind == 'name' else len(d) == 2))
+                    # every resource gets a field descriptor OF ITS OWN: the object appended here is created for this
+                    # resource, it is not the caller's spec dict (which would then sit in several schemas at once, so that
+                    # a later in-place edit of one resource's field reaches the others -- C10 / C15)
+                    raw = getattr(apps[0], 'raw', None)
+                    check(it, 'appended-descriptor-is-not-shared-with-other-resources[%s]' % tkind,
+                          raw is not None and raw is not target and raw is not f0.d.get('target'))
                 cover(it, 'resource-iter-reachable[%s]' % tkind)
             it.loops['func#L0'] = LoopSpec(at_start=res_start, at_end=res_end)
             it.loops['func#L2'] = LoopSpec(modes=('exit',))
             it.run_generator(it.call(func, [package]))
-            if tkind == 'name':
-                check(it, 'name-target-normalised-for-the-row-phase', isinstance(f0.d['target'], PyDict) and
-                      f0.d['target'].d.get('name') is tname)
+            # the caller's specification is read, never rewritten (a second use of the same spec must behave like the first)
+            check(it, 'callers-specification-left-as-given[%s]' % tkind, f0.d['target'] is target and
+                  set(f0.d) == {'target', 'operation', 'with'})
         paths = vc.explore(fk, thunk, min_paths=2)
         expect_no_raise_or_same(vc, fk, paths)
 
@@ -412,7 +440,7 @@ def sym_select_fields_pkg(vc):
 
                         def match(it_, a, k):
                             eff = term(a[0], StrS) if regex else lib.RE_ESCAPE(term(a[0], StrS))
-                            return wrap(lib.RE_MATCH(z3.Concat(z3.StringVal('^'), eff, z3.StringVal('$')), term(a[1], StrS)))
+                            return wrap(lib.RE_FULLMATCH(eff, term(a[1], StrS)))
                         sp = spec.bind(it)
 
                         def res_start(it, env, rd):
@@ -524,6 +552,18 @@ def nat_find_replace(h):
         want = h.run(lambda: [r for row in [dict(x) for x in rows] for r in sp['find_replace_step'](row, fields)])
         got = h.run(lambda: list(_find_replace(iter([dict(x) for x in rows]), fields)))
         h.check(want[:2] == got[:2], P + 'find_replace.py::_find_replace', (rows, fields), want[:2], got[:2])
+    # the operation is applied to str(value) of THAT row: values that compare equal in Python but print differently
+    # (1 / True / 1.0 / Decimal('1.0'), 1.5 / Decimal('1.50')) each get their own result, whatever the rows before them held
+    import decimal
+    odd = [decimal.Decimal('1.50'), decimal.Decimal('1.5'), 1, True, 1.0, decimal.Decimal('1'), 0, False, 2, decimal.Decimal('2.000'), 'x.y', None]
+    for _ in range(h.n(20, 200)):
+        vals = [h.rng.choice(odd) for _i in range(h.rng.randint(2, 8))]
+        rows = [{'a': v, 'b': i} for i, v in enumerate(vals)]
+        fields = [{'name': 'a', 'patterns': [{'find': r'\.', 'replace': ','}, {'find': 'True', 'replace': 'yes'}]}]
+        want = [{'a': re.sub('True', 'yes', re.sub(r'\.', ',', str(v))), 'b': i} for i, v in enumerate(vals)]
+        got = h.run(lambda: list(_find_replace(iter([dict(x) for x in rows]), fields)))
+        h.check(got[0] == 'ok' and got[1] == want and all(type(a['a']) is type(b['a']) for a, b in zip(got[1], want)),
+                P + 'find_replace.py::_find_replace', ('equal values that print differently', vals), want, got[:2])
 
 
 def nat_lockstep(h):
@@ -580,6 +620,57 @@ def nat_lockstep(h):
         fields = [f['name'] for f in dp.descriptor['resources'][0]['schema']['fields']]
         ok = fields == exp_fields and res[0] == exp_rows and all(set(r) == set(fields) for r in res[0])
         h.check(ok, P + kind, (kind, cols, pick, regex), (exp_fields, exp_rows), (fields, res[0]))
+    # two resources edited by one field-level step, then a second step restricted to ONE of them: the other resource's schema
+    # and rows must stay in lockstep (a field descriptor must not be shared between the resources)
+    from dataflows import set_type
+    for first in (lambda: add_field('x', 'integer', 5), lambda: add_computed_field(target=dict(name='x', type='integer'), operation='constant', with_=5),
+                  lambda: add_computed_field(target='x', operation='constant', with_='5')):
+        for second, what in ((lambda: rename_fields({'x': 'y'}, resources='res_1'), 'rename'),
+                             (lambda: set_type('x', type='string', resources='res_1', transform=str), 'set_type')):
+            got = h.run(lambda: Flow([{'a': 1}, {'a': 2}], [{'a': 3}], first(), second()).results(on_error=None))
+            if got[0] != 'ok':
+                continue
+            res, dp, _ = got[1]
+            for rows_, rd in zip(res, dp.descriptor['resources']):
+                fields = [f['name'] for f in rd['schema']['fields']]
+                ok = all(set(r) == set(fields) for r in rows_)
+                if rd['name'] == 'res_2':
+                    ok = ok and fields == ['a', 'x'] and [f['type'] for f in rd['schema']['fields']][1] in ('integer', 'string', 'any')
+                    if what == 'set_type' and first is not None:
+                        ok = ok and rd['schema']['fields'][1]['type'] != 'string' or rows_ and isinstance(rows_[0]['x'], str)
+                h.check(ok, P + 'add_computed_field.py::get_new_fields', (what, rd['name']), 'schema of the untouched resource unchanged, rows match it',
+                        (fields, rows_[:1]))
+    # several selected resources: a step either refuses (an error), or EVERY selected resource ends up with schema names == row keys,
+    # no value lost.  A rename onto a name another field of the same resource already has cannot be carried out on dict rows, in
+    # whichever resource it happens
+    tables = {'plain': [{'a': 1, 'c': 3}], 'clash': [{'a': 1, 'b': 2, 'c': 3}]}
+    for order in (('clash', 'plain'), ('plain', 'clash'), ('plain', 'clash', 'plain'), ('plain', 'plain')):
+        for mk, what in ((lambda: rename_fields({'a': 'b'}), 'rename a->b'), (lambda: rename_fields({'(a)': r'b'}, regex=True), 'rename (a)->b'),
+                         (lambda: delete_fields(['b'], regex=False), 'delete b'), (lambda: select_fields(['a', 'c']), 'select a, c')):
+            got = h.run(lambda: Flow(*[[dict(r) for r in tables[t]] for t in order], mk()).results(on_error=None))
+            if got[0] != 'ok':
+                continue          # refused: loud, not wrong
+            res, dp, _ = got[1]
+            ok = True
+            for rows_, rd, t in zip(res, dp.descriptor['resources'], order):
+                fields = [f['name'] for f in rd['schema']['fields']]
+                ok = ok and len(set(fields)) == len(fields) and all(list(r) == fields or set(r) == set(fields) for r in rows_)
+                if what.startswith('rename'):
+                    ok = ok and all(sorted(r.values()) == sorted(tables[t][0].values()) for r in rows_)
+            h.check(ok, P + 'rename_fields.py::rename_fields.func', (what, order), 'refused, or every resource in lockstep with no value lost',
+                    [([f['name'] for f in rd['schema']['fields']], rows_) for rows_, rd in zip(res, dp.descriptor['resources'])])
+    # the same specification used twice (the same list handed to two flows; a flow object run again): the second use must
+    # declare the same schema as the first
+    spec = [dict(target='total', operation='sum', source=['a', 'b'])]
+    outs = []
+    for _use in range(2):
+        got = h.run(lambda: Flow([{'a': 1, 'b': 2}], add_computed_field(spec)).results(on_error=None))
+        outs.append([(f['name'], f.get('type')) for f in got[1][1].descriptor['resources'][0]['schema']['fields']] if got[0] == 'ok' else got[:2])
+    h.check(outs[0] == outs[1], P + 'add_computed_field.py::add_computed_field.func', 'same spec list used twice', outs[0], outs[1])
+    f = Flow([{'a': 1, 'b': 2}], add_computed_field(target='total', operation='sum', source=['a', 'b']))
+    r1, r2 = h.run(lambda: f.results()), h.run(lambda: f.results())
+    h.check(r1[0] == 'ok' and r2[0] == 'ok' and r1[1][0] == r2[1][0] and r1[1][1].descriptor == r2[1][1].descriptor,
+            P + 'add_computed_field.py::add_computed_field.func', 'same flow object run twice', r1[:1], r2[:2])
 
 
 ITEMS = [
